@@ -965,6 +965,10 @@ func (c *ctx) replayFile(bins map[string]string, path string, timeout time.Durat
 func (c *ctx) replay(path string) int {
 	abs, err := filepath.Abs(path)
 	must(err)
+	if _, err := os.Stat(abs); err != nil {
+		fmt.Fprintf(os.Stderr, "replay file %s: %v\n", abs, err)
+		return 2
+	}
 	bins := map[string]string{}
 	if _, err := c.buildBinary(); err != nil && (needsBinary[c.engine] || len(extraEngines[c.id]) > 0) {
 		inconclusive("%v", err)
